@@ -175,6 +175,9 @@ type Exec struct {
 	pruned   int
 	curLoopPos token.Pos
 	paramAlias [][2]string // contract name -> code name of renamed parameters
+	thorough bool
+	inlLoops map[ssa.Instruction]map[int]*loopInfo // call of a contract-less helper -> its loops (by header index)
+	nLoops   int
 }
 
 type loopInfo struct {
@@ -182,6 +185,7 @@ type loopInfo struct {
 	blocks map[int]bool
 	spec   *LoopSpec
 	ord    int
+	fn     *ssa.Function // the function the loop belongs to (the unit, or a helper executed in place)
 }
 
 type modEntry struct {
@@ -662,7 +666,20 @@ func (x *Exec) gotoBlock(st *State, to *ssa.BasicBlock) {
 			}
 		}
 	} else if fr.fn != x.fn || len(st.frames) > 1 {
-		// inlined frame: loops are only allowed with unroll semantics given by the callee contract; otherwise reject
+		// helper executed in place: its loops are governed by the unit's loop contracts (numbered at the call site)
+		if len(st.frames) == 2 && fr.retInto != nil {
+			if m := x.inlLoops[fr.retInto.(ssa.Instruction)]; m != nil {
+				if li := m[to.Index]; li != nil {
+					if x.loopEdge(st, li, from, to) {
+						return
+					}
+					fr.prev = from
+					fr.block = to
+					fr.idx = 0
+					return
+				}
+			}
+		}
 		if to.Dominates(from) {
 			k := fnKey(x.w.pkgOfFn(fr.fn), fr.fn)
 			panic(unsupported("loop in inlined function " + k + " (give it a contract)"))
@@ -710,6 +727,26 @@ func (x *Exec) loopEdge(st *State, li *loopInfo, from, to *ssa.BasicBlock) bool 
 	}
 	if fr.loopHead != nil && fr.loopHead[to.Index] != nil {
 		env.loopHead = x.snapEnv(st, fr.loopHead[to.Index])
+	}
+	ctl := x.loopControl(li)
+	if back {
+		// iter(): index of the iteration that just ran -- the hidden range index, or the loop counter's value at the head
+		if ric := x.rangeIndexCell(st, li); ric != "" {
+			env.iter = &Val{S: ric, T: types.Typ[types.Int]}
+		} else if ctl != nil && fr.loopHead != nil && fr.loopHead[to.Index] != nil {
+			if v, ok := fr.loopHead[to.Index].vars[ctl.v.Comment]; ok {
+				vv := v
+				env.iter = &vv
+			}
+		}
+	}
+	// automatic invariant of counting loops: the counter never drops below its (constant) start value
+	autoLower := ""
+	if ctl != nil && ctl.hasInit {
+		if c, ok := fr.cells[ctl.v]; ok {
+			autoLower = x.cx.binop(token.LEQ, x.cx.num(ctl.init), c, types.Typ[types.Int], types.Typ[types.Bool])
+			x.check(st, fmt.Sprintf("%s#%d[auto.lower]", kind, li.ord), autoLower, fmt.Sprintf("loop%d", li.ord))
+		}
 	}
 	for i, cl := range spec.Invariants {
 		lab := cl.Label
@@ -769,6 +806,11 @@ func (x *Exec) loopEdge(st *State, li *loopInfo, from, to *ssa.BasicBlock) bool 
 	}
 	if ri := x.rangeIndexCell(st, li); ri != "" {
 		x.assume(st, x.cx.binop(token.LEQ, x.cx.num(-1), ri, types.Typ[types.Int], types.Typ[types.Bool]))
+	}
+	if ctl != nil && ctl.hasInit {
+		if c, ok := fr.cells[ctl.v]; ok {
+			x.assume(st, x.cx.binop(token.LEQ, x.cx.num(ctl.init), c, types.Typ[types.Int], types.Typ[types.Bool]))
+		}
 	}
 	if spec.Decreases != nil {
 		v := x.name(st, "variant", Val{S: x.clauseTerm(st, spec.Decreases, env), T: types.Typ[types.Int]})
@@ -835,6 +877,22 @@ func (x *Exec) invEnv(st *State) *Env {
 	for _, pa := range x.paramAlias {
 		if v, ok := vars[pa[1]]; ok {
 			vars[pa[0]] = v
+		}
+	}
+	// loop clauses of a helper executed in place may also name the helper's own parameters and locals
+	if len(st.frames) > 1 {
+		tf := st.top()
+		for _, prm := range tf.fn.Params {
+			if r, ok := tf.regs[prm]; ok && isIdent(prm.Name()) {
+				if _, taken := vars[prm.Name()]; !taken {
+					vars[prm.Name()] = r
+				}
+			}
+		}
+		for al, c := range tf.cells {
+			if isIdent(al.Comment) {
+				vars[al.Comment] = Val{S: c, T: al.Type().(*types.Pointer).Elem()}
+			}
 		}
 	}
 	// heap-allocated named locals (escaping variables)
@@ -1535,16 +1593,16 @@ func (x *Exec) doReturn(st *State, rs []Val, site string) {
 
 // loops ----------------------------------------------------------------------------------
 
-func (x *Exec) findLoops() {
-	x.loops = map[int]*loopInfo{}
-	f := x.fn
+// loopsOf computes the natural loops of a function (by header block index).
+func loopsOf(f *ssa.Function) map[int]*loopInfo {
+	loops := map[int]*loopInfo{}
 	for _, b := range f.Blocks {
 		for _, s := range b.Succs {
 			if s.Dominates(b) {
-				li := x.loops[s.Index]
+				li := loops[s.Index]
 				if li == nil {
-					li = &loopInfo{header: s, blocks: map[int]bool{s.Index: true}}
-					x.loops[s.Index] = li
+					li = &loopInfo{header: s, blocks: map[int]bool{s.Index: true}, fn: f}
+					loops[s.Index] = li
 				}
 				// natural loop: nodes that reach b without passing s
 				var work []*ssa.BasicBlock
@@ -1565,31 +1623,77 @@ func (x *Exec) findLoops() {
 			}
 		}
 	}
-	var hs []int
-	for h := range x.loops {
-		hs = append(hs, h)
+	return loops
+}
+
+// findLoops numbers the loops the unit's loop contracts refer to: the unit's own loops and the loops of helper
+// functions without a contract that the unit calls directly (they are executed in place), all in source order of the
+// loop (own) or of the call (helper). Extracting a loop into a helper therefore keeps its ordinal.
+func (x *Exec) findLoops() {
+	x.loops = loopsOf(x.fn)
+	x.inlLoops = map[ssa.Instruction]map[int]*loopInfo{}
+	type site struct {
+		pos  token.Pos
+		sub  token.Pos
+		li   *loopInfo
+		hidx int
 	}
-	// order loops by source position of their header (falls back to block index)
-	sort.Slice(hs, func(i, j int) bool {
-		pi, pj := x.blockPos(x.loops[hs[i]]), x.blockPos(x.loops[hs[j]])
-		if pi != pj {
-			return pi < pj
+	var sites []site
+	for h, li := range x.loops {
+		sites = append(sites, site{pos: x.blockPos(li), li: li, hidx: h})
+	}
+	for _, b := range x.fn.Blocks {
+		for _, ins := range b.Instrs {
+			call, ok := ins.(*ssa.Call)
+			if !ok {
+				continue
+			}
+			callee, ok := call.Call.Value.(*ssa.Function)
+			if !ok || callee.Blocks == nil || !isRepoFn(callee) || isBuilderMethod(callee) {
+				continue
+			}
+			if c := x.w.Contracts[fnKey(x.w.pkgOfFn(callee), callee)]; c != nil && !c.Inline {
+				continue
+			}
+			cl := loopsOf(callee)
+			if len(cl) == 0 {
+				continue
+			}
+			m := map[int]*loopInfo{}
+			for h, li := range cl {
+				m[h] = li
+				sites = append(sites, site{pos: call.Pos(), sub: x.blockPos(li), li: li, hidx: h})
+			}
+			x.inlLoops[call] = m
 		}
-		return hs[i] < hs[j]
+	}
+	sort.Slice(sites, func(i, j int) bool {
+		if sites[i].pos != sites[j].pos {
+			return sites[i].pos < sites[j].pos
+		}
+		if sites[i].sub != sites[j].sub {
+			return sites[i].sub < sites[j].sub
+		}
+		return sites[i].hidx < sites[j].hidx
 	})
-	for i, h := range hs {
-		x.loops[h].ord = i + 1
+	x.nLoops = len(sites)
+	for i, s := range sites {
+		s.li.ord = i + 1
 		if x.con != nil {
-			x.loops[h].spec = x.con.Loops[i+1]
+			s.li.spec = x.con.Loops[i+1]
 		}
 	}
 }
 
 func (x *Exec) blockPos(li *loopInfo) token.Pos {
 	// smallest valid position of any instruction in the loop
+	f := li.fn
+	if f == nil {
+		f = x.fn
+	}
 	var best token.Pos
 	for bi := range li.blocks {
-		for _, ins := range x.fn.Blocks[bi].Instrs {
+		for _, ins := range f.Blocks[bi].Instrs {
 			if p := ins.Pos(); p.IsValid() && (best == 0 || p < best) {
 				best = p
 			}
@@ -1598,10 +1702,22 @@ func (x *Exec) blockPos(li *loopInfo) token.Pos {
 	return best
 }
 
+// loopFrame: the activation the loop belongs to (the unit's frame, or the frame of the helper executed in place).
+func (x *Exec) loopFrame(st *State, li *loopInfo) *frame {
+	if li.fn != nil && li.fn != x.fn {
+		return st.top()
+	}
+	return st.frames[0]
+}
+
 // havocLoop forgets everything the loop may modify.
 func (x *Exec) havocLoop(st *State, li *loopInfo) {
 	cx := x.cx
-	fr := st.frames[0]
+	fr := x.loopFrame(st, li)
+	lf := li.fn
+	if lf == nil {
+		lf = x.fn
+	}
 	cells := map[*ssa.Alloc]bool{}
 	keys := map[string]bool{}
 	cellPtrs := map[ssa.Value]bool{}
@@ -1651,7 +1767,7 @@ func (x *Exec) havocLoop(st *State, li *loopInfo) {
 				} else {
 					cellPtrs[r] = true
 				}
-			} else if f == x.fn {
+			} else if f == lf {
 				cells[r] = true
 			}
 		case *ssa.FieldAddr:
@@ -1726,13 +1842,13 @@ func (x *Exec) havocLoop(st *State, li *loopInfo) {
 		}
 	}
 	for bi := range li.blocks {
-		for _, ins := range x.fn.Blocks[bi].Instrs {
-			scanInstr(ins, x.fn)
+		for _, ins := range lf.Blocks[bi].Instrs {
+			scanInstr(ins, lf)
 		}
 	}
 	// map iterators advanced inside the loop: forget which keys were delivered (the invariant says it, via seen())
 	for bi := range li.blocks {
-		for _, ins := range x.fn.Blocks[bi].Instrs {
+		for _, ins := range lf.Blocks[bi].Instrs {
 			if nx, ok := ins.(*ssa.Next); ok {
 				if it, ok := st.iters[nx.Iter]; ok {
 					ks := cx.sortOf(it.mt.Key())
@@ -1833,7 +1949,7 @@ func (x *Exec) rangeIndexCell(st *State, li *loopInfo) string {
 	if li.header.Comment != "rangeindex.loop" {
 		return ""
 	}
-	fr := st.frames[0]
+	fr := x.loopFrame(st, li)
 	for _, ins := range li.header.Instrs {
 		if s, ok := ins.(*ssa.Store); ok {
 			if a, ok := s.Addr.(*ssa.Alloc); ok && a.Comment == "rangeindex" {
@@ -1899,4 +2015,80 @@ func ownedEscape(load *ssa.UnOp) string {
 		return ""
 	}
 	return okUse(load, 0)
+}
+
+// loopCtl: the counter of a counting loop `for v := k; v < E; v += c` (c > 0), recognised on the SSA.
+type loopCtl struct {
+	v       *ssa.Alloc
+	init    int64
+	hasInit bool
+}
+
+func (x *Exec) loopControl(li *loopInfo) *loopCtl {
+	if li.header.Comment == "rangeindex.loop" {
+		return nil
+	}
+	n := len(li.header.Instrs)
+	if n == 0 {
+		return nil
+	}
+	iff, ok := li.header.Instrs[n-1].(*ssa.If)
+	if !ok {
+		return nil
+	}
+	bo, ok := iff.Cond.(*ssa.BinOp)
+	if !ok {
+		return nil
+	}
+	var al *ssa.Alloc
+	for _, side := range []ssa.Value{bo.X, bo.Y} {
+		if u, ok := side.(*ssa.UnOp); ok && u.Op == token.MUL {
+			if a, ok := u.X.(*ssa.Alloc); ok && !a.Heap && isIntType(a.Type().(*types.Pointer).Elem()) {
+				al = a
+				break
+			}
+		}
+	}
+	if al == nil {
+		return nil
+	}
+	ctl := &loopCtl{v: al}
+	inits, ok2 := 0, true
+	for _, ref := range *al.Referrers() {
+		s, isStore := ref.(*ssa.Store)
+		if !isStore || s.Addr != al {
+			continue
+		}
+		if li.blocks[s.Block().Index] {
+			// inside the loop: only v = v + c with c > 0
+			b, isBin := s.Val.(*ssa.BinOp)
+			if !isBin || b.Op != token.ADD {
+				ok2 = false
+				continue
+			}
+			ld, isLd := b.X.(*ssa.UnOp)
+			c, isC := b.Y.(*ssa.Const)
+			if !isLd || ld.X != al || !isC || c.Value == nil {
+				ok2 = false
+				continue
+			}
+			if v, exact := constant.Int64Val(c.Value); !exact || v <= 0 {
+				ok2 = false
+			}
+			continue
+		}
+		c, isC := s.Val.(*ssa.Const)
+		if !isC || c.Value == nil {
+			ok2 = false
+			continue
+		}
+		if v, exact := constant.Int64Val(c.Value); exact {
+			ctl.init = v
+			inits++
+		} else {
+			ok2 = false
+		}
+	}
+	ctl.hasInit = ok2 && inits == 1
+	return ctl
 }
